@@ -183,6 +183,8 @@ struct ArchiveDamage : Family {
 			else if (c < 74) { op = mkline("op", "stream"); op.set("i", idx).set("rseed", hex64(r.next())); }
 			else if (c < 92) { op = mkline("op", "extract"); op.set("i", idx); }
 			else op = mkline("op", "extractall");
+			// failing allocation inside this call, on the long-lived object only: whatever the outcome, the object must stay usable
+			if (r.chance(1, 5)) op.set("allocfail", 1 + r.below(12));
 			p.ops.push_back(op);
 		}
 		return p;
@@ -313,7 +315,12 @@ struct ArchiveDamage : Family {
 						const Line& op = plan.ops[oi];
 						ctx.setOp(oi);
 						if (vi == 0) ctx.schedNote(op.verb);
+						uint64_t allocFail = op.u("allocfail", 0);
+						uint64_t injectedBefore = g_alloc.injectedFailures;
+						g_alloc.failCountdown = allocFail;
 						CallResult ra = doCall(plan, *A, Avol, op, t, count, "a" + std::to_string(oi));
+						g_alloc.failCountdown = 0;
+						bool oomInjected = g_alloc.injectedFailures != injectedBefore;
 						++calls;
 						checkBudget(ctx, op.verb + " on the long-lived archive object");
 						if (ra.out == ErrOther) ctx.fail("C05.ordinary-error", op.str() + " failed with something that is not a std::exception");
@@ -325,6 +332,13 @@ struct ArchiveDamage : Family {
 						CallResult rf = doCall(plan, *F, Fvol, op, t, count, "f" + std::to_string(oi));
 						++calls;
 						{ Armed a; F.reset(); }
+						if (oomInjected) {
+							// the call on the long-lived object ran out of memory at an arbitrary point: it may fail (ordinary error) or
+							// succeed; it is not compared with the fresh object, but every LATER call is
+							if (ra.out != OkOut) { aFailedBefore = true; ctx.count("probe.call_failed_by_injected_oom"); }
+							vh = mix64(vh, 0x6f6f6d);
+							continue;
+						}
 						if (ra.out != rf.out || (ra.out == OkOut && ra.value != rf.value)) {
 							ctx.fail("C05.usable-after-failure", op.str() + " on the long-lived archive object gives " + outName(ra.out) + (ra.out != OkOut ? " (" + ra.what + ")" : "") + " but " + outName(rf.out) + (rf.out != OkOut ? " (" + rf.what + ")" : "") +
 							         " on a freshly opened object" + (aFailedBefore ? "; an earlier call on the long-lived object had failed" : ""));
